@@ -505,7 +505,7 @@ def judge_sequence(res, writer, seq):
 def run(ctx, res):
     K.install()
     rng = ctx.rng("vals")
-    values = lattice(rng, 700 if ctx.quick else 12000)
+    values = lattice(rng, 700 if ctx.quick else 150000)
     mine = [x for i, x in enumerate(values) if ctx.mine(i)]
     for v, tn, tag in mine:
         for carrier in CELL_CARRIERS + VAR_CARRIERS:
@@ -520,7 +520,7 @@ def run(ctx, res):
         judge_documents(res, mine[k : k + 40], rng)
     # values written side by side through the multi-value writers
     srng = ctx.rng("sequences")
-    for i in range(1500 if ctx.quick else 30000):
+    for i in range(1500 if ctx.quick else 400000):
         seq = gen_sequence(srng, values)
         if not ctx.mine(i):
             continue
